@@ -80,8 +80,10 @@ func (o *Out) Emit(v any) {
 	o.f.Write(b)
 }
 
-func (o *Out) Begin(id any)              { o.Emit(map[string]any{"t": "begin", "case": id}) }
-func (o *Out) End(id any, sigs []string) { o.Emit(map[string]any{"t": "end", "case": id, "sigs": sigs}) }
+func (o *Out) Begin(id any) { o.Emit(map[string]any{"t": "begin", "case": id}) }
+func (o *Out) End(id any, sigs []string) {
+	o.Emit(map[string]any{"t": "end", "case": id, "sigs": sigs})
+}
 
 // Finding reports one violation candidate with the replayable case.
 func (o *Out) Finding(id any, sig, kind, msg string, replay any) {
